@@ -343,11 +343,12 @@ where
           // a panic that could unwind: the world may be inconsistent, treat like a crash
           // (exit code 101 is decoded by the parent as "panic")
           ctx.finish();
-          h.cases_done.fetch_add(done, Ordering::Relaxed);
           unsafe { libc::_exit(101) };
         }
         done += 1;
+        h.slots[slot][2].store(done, Ordering::Relaxed);
       }
+      h.slots[slot][2].store(0, Ordering::Relaxed);
       h.slots[slot][0].store(0, Ordering::Release);
       h.cases_done.fetch_add(done, Ordering::Relaxed);
       ctx.flush_counters();
@@ -450,6 +451,9 @@ where
         continue;
       }
       let case = cur - 1;
+      // cases of the interrupted range that did complete
+      let partial = h.slots[slot][2].swap(0, Ordering::Relaxed);
+      h.cases_done.fetch_add(partial, Ordering::Relaxed);
       result.crashes += 1;
       crash_records.push((case, how));
       h.slots[slot][0].store(0, Ordering::Relaxed);
